@@ -84,12 +84,15 @@ def r2(cx):
     if len(cr) != 1:
         raise Anchor("store_if: expected one create call")
     c = cr[0]
-    gs = [g for g in guards_of(m, f, c.b, mode="value") if not g.neutral]
+    from vlib.model import conditions_of
+    gs = [g for g in conditions_of(m, f, c.b, mode="value") if not g.neutral]
     have = {"ack": False, "chan": False, "first": False}
     extra = []
     for g in gs:
         r = g.root
-        if r[0] == "param" and r[2] == "ack" and g.truth is True:
+        if not g.necessary:
+            extra.append(gdesc(m, g))
+        elif r[0] == "param" and r[2] == "ack" and g.truth is True:
             have["ack"] = True
         elif r[0] == "call" and r[1].endswith("::is_empty") and g.truth is False:
             a = pa.root(f, Call(f, r[2]).args[0])
